@@ -1,6 +1,7 @@
 package main
 
 import (
+	"go/token"
 	"go/types"
 	"sort"
 	"strings"
@@ -88,6 +89,104 @@ func runSliceKeepRule(c *Ctx, rule string, min int) {
 				sort.Strings(missing)
 				c.Check(rule, FuncKey(fn)+" carries every field of the page into its result#"+itoa(k), al.Pos(), len(missing) == 0, FuncKey(fn)+" builds its result as a "+named.Obj().Name()+" literal that leaves out "+strings.Join(missing, ", ")+": the field is zero in the slice or clone although it describes the column, not the values (a page that forgets its maximum definition level reports no levels)")
 			}
+		}
+	}
+	c.Min(rule, min)
+}
+
+// runViewStateRule — when Slice computes an integer field of the page it
+// returns (the bit offset of a sliced boolean page, its number of values)
+// instead of copying it from the receiver, that field is part of what the page
+// *means*: both ways of getting at the values — Values() and Data() — read it
+// (directly or in a callee of the same receiver). A Data() that ignores it
+// hands encoders other values than Values() returns.
+func runViewStateRule(c *Ctx, rule string, min int) {
+	p := c.P
+	n := 0
+	for _, fn := range p.ModuleSSAFuncs() {
+		if fn.Origin() != nil || fn.Blocks == nil || fn.Parent() != nil || fnPkgPath(fn) != modPath || fn.Signature.Recv() == nil || fn.Name() != "Slice" {
+			continue
+		}
+		named := namedOf(fn.Signature.Recv().Type())
+		st := structOf(fn.Signature.Recv().Type())
+		if named == nil || st == nil {
+			continue
+		}
+		// computed integer fields of the literal
+		computed := map[int]bool{}
+		for _, b := range fn.Blocks {
+			for _, ins := range b.Instrs {
+				al, ok := ins.(*ssa.Alloc)
+				if !ok {
+					continue
+				}
+				if an := namedOf(al.Type()); an == nil || an.Obj() != named.Obj() {
+					continue
+				}
+				for _, r := range *al.Referrers() {
+					fa, ok := r.(*ssa.FieldAddr)
+					if !ok || !isNumericBasic(st.Field(fa.Field).Type()) {
+						continue
+					}
+					for _, rr := range *fa.Referrers() {
+						s, ok := rr.(*ssa.Store)
+						if !ok || s.Addr != ssa.Value(fa) {
+							continue
+						}
+						v := s.Val
+						for {
+							cv, ok := v.(*ssa.Convert)
+							if !ok {
+								break
+							}
+							v = cv.X
+						}
+						if bo, ok := v.(*ssa.BinOp); ok && (bo.Op == token.REM || bo.Op == token.AND) {
+							computed[fa.Field] = true // a position inside a unit (bit in a byte)
+						}
+					}
+				}
+			}
+		}
+		if len(computed) == 0 {
+			continue
+		}
+		// the accessors of the same type
+		for _, m := range p.methodsOf(named) {
+			if m.Blocks == nil || (m.Name() != "Data" && m.Name() != "Values") {
+				continue
+			}
+			reads := map[int]bool{}
+			var visit func(g *ssa.Function, depth int)
+			visit = func(g *ssa.Function, depth int) {
+				allInstrs(g, true, func(_ *ssa.Function, ins ssa.Instruction) {
+					if fa, ok := ins.(*ssa.FieldAddr); ok {
+						if n2 := namedOf(fa.X.Type()); n2 != nil && n2.Obj() == named.Obj() {
+							reads[fa.Field] = true
+						}
+					}
+					if call, ok := ins.(ssa.CallInstruction); ok && depth < 2 {
+						if h := call.Common().StaticCallee(); h != nil && h.Blocks != nil && h.Signature.Recv() != nil {
+							if hn := namedOf(h.Signature.Recv().Type()); hn != nil && hn.Obj() == named.Obj() {
+								visit(h, depth+1)
+							}
+						}
+					}
+				})
+			}
+			visit(m, 0)
+			if m.Name() == "Values" {
+				continue // readers built by Values() keep the page and read it later: counted through Data only
+			}
+			n++
+			var missing []string
+			for i := range computed {
+				if !reads[i] {
+					missing = append(missing, st.Field(i).Name())
+				}
+			}
+			sort.Strings(missing)
+			c.Check(rule, FuncKey(m)+" honours the position its page starts at", m.Pos(), len(missing) == 0, FuncKey(m)+" never reads "+strings.Join(missing, ", ")+", which Slice computes for the page it returns (the position of its first value inside a byte): the data handed to encoders starts before the first value of the page")
 		}
 	}
 	c.Min(rule, min)
